@@ -1,5 +1,6 @@
 #!/bin/bash
 # usage: tools/seedtest.sh <seed-id> <property> [more properties...]
+#   seed ids of the second round end in "b" (C07b): their source directory is /tmp/seed2/C07
 # Takes /verif/seeded/<id>/patch.diff (or /tmp/seed/<id>/, copied on first use), applies it to a fresh
 # scratch worktree of /repo's HEAD, confirms that the existing tests still pass and that the
 # demonstration fails with the change and passes without it, then runs the registered checks against
@@ -8,7 +9,9 @@ set -u
 ID=$1; shift
 OUT=/verif/seeded/$ID
 mkdir -p $OUT
-if [ ! -f $OUT/patch.diff ] && [ -d /tmp/seed/$ID ]; then cp -r /tmp/seed/$ID/* $OUT/; rm -rf $OUT/scratch; fi
+SRC=/tmp/seed/$ID
+case $ID in *b) SRC=/tmp/seed2/${ID%b};; esac
+if [ ! -f $OUT/patch.diff ] && [ -d $SRC ]; then cp -r $SRC/* $OUT/; rm -rf $OUT/scratch $OUT/target; fi
 WT=/tmp/wt/run_$ID
 git -C /repo worktree remove --force $WT 2>/dev/null
 git -C /repo worktree add -q --detach $WT HEAD || exit 2
